@@ -11,6 +11,7 @@ import (
 	"net/http/httptest"
 	"os"
 	"path/filepath"
+	"regexp"
 	"sort"
 	"strings"
 	"sync"
@@ -34,8 +35,19 @@ import (
 // back (bytes on the connection, the stat API, the file tree below a temporary directory).
 
 type aStep struct {
+	Conn  string `json:"conn"`
 	Cred  string `json:"cred"`
 	Nonce string `json:"nonce"`
+}
+
+// hpPath is one spelling of an HLS (or HTTP-FLV/TS) request path, component by component.
+type hpPath struct {
+	Shape  string `json:"shape"`
+	Prefix string `json:"prefix"`
+	Stream string `json:"stream"`
+	Fname  string `json:"fname"`
+	Ext    string `json:"ext"`
+	Slash  string `json:"slash"`
 }
 
 type authScenario struct {
@@ -60,12 +72,20 @@ type authScenario struct {
 	Probes []int `json:"probes"`
 	// kick
 	Which string `json:"which"`
+	Peers int    `json:"peers"`
+	// bl
+	Fam string `json:"fam"`
+	// hp / sv
+	Cfg    string `json:"cfg"`
+	Listed bool   `json:"listed"`
+	Hp     hpPath `json:"hp"`
 }
 
 const (
 	authKey    = "q191201771"
 	authStream = "cam1"
 	authOther  = "cam2"
+	authUpper  = "CAM1"
 	authUser   = "admin"
 	authSdp    = "v=0\r\no=- 0 0 IN IP4 127.0.0.1\r\ns=No Name\r\nc=IN IP4 127.0.0.1\r\nt=0 0\r\n" +
 		"m=video 0 RTP/AVP 96\r\na=rtpmap:96 H264/90000\r\n" +
@@ -82,10 +102,11 @@ type authEnv struct {
 	sm                 *logic.ServerManager
 	base, hls, flv, ts string
 	rtspSrv            *rtsp.Server
+	rtspBg             *rtspClient
 	rtspAuth           rtsp.ServerAuthConfig
 }
 
-func newAuthEnv(dir string, sa M, ra M, record bool) *authEnv {
+func newAuthEnv(dir string, sa M, ra M, record bool, hlsOpt ...M) *authEnv {
 	e := &authEnv{base: dir}
 	e.hls = filepath.Join(dir, "a", "b", "hls")
 	e.flv = filepath.Join(dir, "a", "b", "flv")
@@ -108,6 +129,11 @@ func newAuthEnv(dir string, sa M, ra M, record bool) *authEnv {
 	for k, v := range (M{"out_path": e.hls + "/", "fragment_duration_ms": 3000, "fragment_num": 6, "delete_threshold": 6,
 		"cleanup_mode": 0, "use_memory_as_disk_flag": false, "sub_session_timeout_ms": 0, "sub_session_hash_key": ""}) {
 		h[k] = v
+	}
+	for _, o := range hlsOpt {
+		for k, v := range o {
+			h[k] = v
+		}
 	}
 	conf := M{
 		"conf_version": base.ConfVersion,
@@ -468,11 +494,16 @@ func rtspUri(stream, query string) string {
 // ---- HLS through a ServeMux
 
 func (e *authEnv) hlsGet(target, remote string) (code int, body []byte, note string) {
+	code, body, _, note = e.hlsDo(target, remote)
+	return
+}
+
+func (e *authEnv) hlsDo(target, remote string) (code int, body []byte, hdr http.Header, note string) {
 	mux := http.NewServeMux()
 	mux.HandleFunc(e.sm.Config().HlsConfig.UrlPattern, e.sm.VerifServeHls)
 	req, err := httpRequest(target, remote)
 	if err != nil {
-		return 0, nil, "badreq"
+		return 0, nil, nil, "badreq"
 	}
 	rec := httptest.NewRecorder()
 	func() {
@@ -483,7 +514,7 @@ func (e *authEnv) hlsGet(target, remote string) (code int, body []byte, note str
 		}()
 		mux.ServeHTTP(rec, req)
 	}()
-	return rec.Code, rec.Body.Bytes(), note
+	return rec.Code, rec.Body.Bytes(), rec.Header(), note
 }
 
 // ---- stat projection
@@ -559,11 +590,96 @@ func withQ(p, q string) string {
 	return p + "?" + q
 }
 
+// writePlaylist plants what lal's muxer would have written for `stream`; every file carries a tag
+// naming the stream and the kind of file, so that a response can be projected to (what, stream).
 func (e *authEnv) writePlaylist(stream string) {
 	d := filepath.Join(e.hls, stream)
 	os.MkdirAll(d, 0755)
-	os.WriteFile(filepath.Join(d, "playlist.m3u8"), []byte("#EXTM3U\n#EXT-X-VERSION:3\n#EXTINF:3.000,\n"+stream+"-1-0.ts\n"), 0644)
-	os.WriteFile(filepath.Join(d, stream+"-1-0.ts"), bytes.Repeat([]byte{0x47}, 188), 0644)
+	for _, k := range []string{"playlist", "record"} {
+		os.WriteFile(filepath.Join(d, k+".m3u8"), []byte("#EXTM3U\n#EXT-X-VERSION:3\n#TAG:"+stream+":"+k+":\n#EXTINF:3.000,\n"+stream+"-1-0.ts\n"), 0644)
+	}
+	seg := append([]byte{0x47}, []byte("TAG:"+stream+":ts:")...)
+	seg = append(seg, bytes.Repeat([]byte{0x47}, 188-len(seg))...)
+	os.WriteFile(filepath.Join(d, stream+"-1-0.ts"), seg, 0644)
+}
+
+var hlsTag = regexp.MustCompile(`TAG:([A-Za-z0-9]+):(playlist|record|ts):`)
+
+// hlsProject names the planted file a response came from: ("none", "") when the response carries
+// no file (no bytes, or the error / redirect page of a non-2xx status), ("other", "") for a 2xx
+// response whose bytes are no planted file.
+func hlsProject(code int, body []byte) (what, stream string) {
+	if m := hlsTag.FindSubmatch(body); m != nil {
+		return string(m[2]), string(m[1])
+	}
+	if len(body) == 0 || code < 200 || code > 299 {
+		return "none", ""
+	}
+	return "other", ""
+}
+
+var spellFixed = map[string]map[string]string{
+	"playlist": {"lower": "playlist", "upper": "PLAYLIST", "mixed": "Playlist", "esc": "%70laylist"},
+	"record":   {"lower": "record", "upper": "RECORD", "mixed": "Record", "esc": "%72ecord"},
+	"flv":      {"lower": "flv", "upper": "FLV", "esc": "fl%76"},
+	"ts":       {"lower": "ts", "upper": "TS", "esc": "t%73"},
+}
+
+// hpTarget spells the request path of an hp / sv case.
+func hpTarget(p hpPath) string {
+	var rest string // below /<prefix>/
+	switch p.Shape {
+	case "flat":
+		rest = p.Stream + "." + p.Ext
+	case "dir":
+		rest = p.Stream + "/" + spellFixed["playlist"][p.Fname] + "." + p.Ext
+	case "rec":
+		rest = p.Stream + "/" + spellFixed["record"][p.Fname] + "." + p.Ext
+	case "tsflat":
+		rest = p.Stream + "-1-0." + p.Ext
+	case "tsdir":
+		rest = p.Stream + "/" + p.Stream + "-1-0." + p.Ext
+	case "live":
+		rest = p.Stream + "." + p.Ext
+	}
+	switch p.Slash {
+	case "trail":
+		rest += "/"
+	case "dupMid":
+		if k := strings.LastIndexByte(rest, '/'); k >= 0 {
+			rest = rest[:k] + "/" + rest[k:]
+		} else {
+			rest = "/" + rest
+		}
+	case "dupHead", "dup":
+		rest = "/" + rest
+	case "dot":
+		rest = "./" + rest
+	}
+	return "/" + p.Prefix + "/" + rest
+}
+
+func hpQuery(form string) string {
+	switch form {
+	case "wrong":
+		return "lal_secret=" + proj.LalSecret(authKey+"x", authStream)
+	case "s_cam1":
+		return "lal_secret=" + proj.LalSecret(authKey, authStream)
+	case "s_CAM1":
+		return "lal_secret=" + proj.LalSecret(authKey, authUpper)
+	}
+	return ""
+}
+
+var saFlagNames = []string{"pub_rtmp_enable", "sub_rtmp_enable", "sub_httpflv_enable", "sub_httpts_enable",
+	"pub_rtsp_enable", "sub_rtsp_enable", "hls_m3u8_enable"}
+
+func saFlags(on func(f string) bool) M {
+	sa := M{"dangerous_lal_secret": ""}
+	for _, f := range saFlagNames {
+		sa[f] = on(f)
+	}
+	return sa
 }
 
 // request of one protocol-direction; returns the observation record and the connection handle.
@@ -576,6 +692,11 @@ type saObs struct {
 }
 
 func (e *authEnv) saRequest(pd, stream, query, cname string) (o saObs) {
+	return e.saRequestAt(pd, stream, query, cname, "")
+}
+
+// saRequestAt: as saRequest; target (HTTP-FLV/TS only) replaces the documented request path.
+func (e *authEnv) saRequestAt(pd, stream, query, cname, target string) (o saObs) {
 	o.closeFn = func() {}
 	o.isClosed = func() bool { return false }
 	switch pd {
@@ -625,7 +746,10 @@ func (e *authEnv) saRequest(pd, stream, query, cname string) (o saObs) {
 		if pd == "ts_sub" {
 			ext, proto = ".ts", "TS"
 		}
-		c, v := e.startHttpSub(cname, withQ("/live/"+stream+ext, query))
+		if target == "" {
+			target = "/live/" + stream + ext
+		}
+		c, v := e.startHttpSub(cname, withQ(target, query))
 		o.Note = v
 		for _, m := range authAv() {
 			bg.FeedRtmpMsg(m)
@@ -653,13 +777,17 @@ func (e *authEnv) saRequest(pd, stream, query, cname string) (o saObs) {
 		o.closeFn = func() { c.conn.Close(); waitDone(c.done, 2000) }
 		o.isClosed = c.conn.Closed
 	case "rtsp_sub":
-		bg := e.newRtsp("bg")
-		r0, _ := bg.request("ANNOUNCE", rtspUri(stream, "lal_secret="+proj.LalSecret(authKey, stream)), nil, authSdp, 3000)
-		if r0 == nil || r0.Code != 200 {
-			o.Note = "bg-announce-failed"
-			return
+		// one background publisher per server: a second request of the scenario (kick with a peer) reuses it
+		if e.rtspBg == nil {
+			bg := e.newRtsp("bg")
+			r0, _ := bg.request("ANNOUNCE", rtspUri(stream, "lal_secret="+proj.LalSecret(authKey, stream)), nil, authSdp, 3000)
+			if r0 == nil || r0.Code != 200 {
+				o.Note = "bg-announce-failed"
+				return
+			}
+			e.rtspBg = bg
+			defer func() { bg.conn.Close(); waitDone(bg.done, 2000) }()
 		}
-		defer func() { bg.conn.Close(); waitDone(bg.done, 2000) }()
 		c := e.newRtsp(cname)
 		r, closed := c.request("DESCRIBE", rtspUri(stream, query), []string{"Accept: application/sdp"}, "", 3000)
 		o.Resp = r != nil && r.Code == 200 && strings.Contains(r.Body, "m=video")
@@ -694,13 +822,26 @@ func (e *authEnv) raRun(sc *authScenario) []M {
 	r0, _ := bg.request("ANNOUNCE", rtspUri(authStream, ""), nil, authSdp, 3000)
 	out := []M{}
 	if r0 == nil || r0.Code != 200 {
-		return append(out, M{"cred": "bg", "nonce": "", "code": -2, "sdp": false, "chal": "none", "fresh": false, "closed": true})
+		return append(out, M{"conn": "c1", "cred": "bg", "nonce": "", "code": -2, "sdp": false, "chal": "none", "fresh": false, "closed": true})
 	}
 	defer func() { bg.conn.Close(); waitDone(bg.done, 2000) }()
 	uri := rtspUri(authStream, "")
-	c := e.newRtsp("c")
-	defer func() { c.conn.Close(); waitDone(c.done, 2000) }()
-	var nonces []string
+	// the connections of the scenario are opened when first used and stay open to its end
+	conns := map[string]*rtspClient{}
+	conn := func(k string) *rtspClient {
+		if conns[k] == nil {
+			conns[k] = e.newRtsp(k)
+		}
+		return conns[k]
+	}
+	defer func() {
+		for _, c := range conns {
+			c.conn.Close()
+			waitDone(c.done, 2000)
+		}
+	}()
+	nonces := map[string][]string{} // challenges per connection
+	var all []string                // every nonce the server has issued in this scenario
 	realm := base.LalRtspRealm
 	otherNonce := func() string {
 		o := e.newRtsp("o")
@@ -709,21 +850,38 @@ func (e *authEnv) raRun(sc *authScenario) []M {
 		if r == nil {
 			return ""
 		}
-		return proj.ParseChallenge(r.Headers["www-authenticate"]).Nonce
+		n := proj.ParseChallenge(r.Headers["www-authenticate"]).Nonce
+		all = append(all, n)
+		return n
 	}
 	for _, st := range sc.Steps {
+		if st.Conn == "" {
+			st.Conn = "c1"
+		}
+		other := "c1"
+		if st.Conn == "c1" {
+			other = "c2"
+		}
+		c := conn(st.Conn)
+		own := nonces[st.Conn]
 		nonce := ""
 		switch st.Nonce {
 		case "last":
-			if len(nonces) > 0 {
-				nonce = nonces[len(nonces)-1]
+			if len(own) > 0 {
+				nonce = own[len(own)-1]
 			}
 		case "first":
-			if len(nonces) > 0 {
-				nonce = nonces[0]
+			if len(own) > 0 {
+				nonce = own[0]
 			}
-		case "other":
+		case "otherLive":
+			// the challenge the other connection (still open) was given last
+			if o := nonces[other]; len(o) > 0 && !conn(other).conn.Closed() {
+				nonce = o[len(o)-1]
+			}
+		case "otherClosed":
 			nonce = otherNonce()
+		case "empty":
 		case "forged":
 			nonce = "00112233445566778899aabbccddeeff"
 		}
@@ -756,7 +914,7 @@ func (e *authEnv) raRun(sc *authScenario) []M {
 			hs = append(hs, "Authorization: "+hdr)
 		}
 		r, closed := c.request("DESCRIBE", uri, hs, "", 3000)
-		ev := M{"cred": st.Cred, "nonce": st.Nonce, "code": 0, "sdp": false, "chal": "none", "fresh": false, "closed": closed}
+		ev := M{"conn": st.Conn, "cred": st.Cred, "nonce": st.Nonce, "code": 0, "sdp": false, "chal": "none", "fresh": false, "closed": closed}
 		if r != nil {
 			ev["code"] = r.Code
 			ev["sdp"] = r.Code == 200 && strings.Contains(r.Body, "m=video")
@@ -765,13 +923,14 @@ func (e *authEnv) raRun(sc *authScenario) []M {
 				ev["chal"] = ch.Scheme
 				if ch.Scheme == "Digest" {
 					fresh := ch.Nonce != ""
-					for _, n := range nonces {
+					for _, n := range all {
 						if n == ch.Nonce {
 							fresh = false
 						}
 					}
 					ev["fresh"] = fresh
-					nonces = append(nonces, ch.Nonce)
+					nonces[st.Conn] = append(nonces[st.Conn], ch.Nonce)
+					all = append(all, ch.Nonce)
 				}
 				if ch.Realm != "" {
 					realm = ch.Realm
@@ -788,7 +947,7 @@ func (e *authEnv) raRun(sc *authScenario) []M {
 
 // ---- path confinement
 
-var rdFiles = []string{"playlist.m3u8", "record.m3u8", "name.m3u8", "...m3u8", "..-1-2.ts", "name-1-2.ts", "hls-1-2.ts"}
+var rdFiles = []string{"playlist.m3u8", "record.m3u8", "name.m3u8", "...m3u8", "..-1-2.ts", "name-1-2.ts", "hls-1-2.ts", "..-1-2.TS"}
 
 func relSegs(baseDir, p string) []string {
 	r, err := filepath.Rel(baseDir, p)
@@ -859,6 +1018,8 @@ func authDriver(env *Env) error {
 		mu.Unlock()
 	}
 	var rdEnv *authEnv
+	hpEnv := map[string]*authEnv{}
+	raSem := make(chan struct{}, 4)
 	err = ReadScenarios(env.In, func(raw json.RawMessage) error {
 		var sc authScenario
 		if err := json.Unmarshal(raw, &sc); err != nil {
@@ -887,13 +1048,84 @@ func authDriver(env *Env) error {
 				"obs": M{"resp": o.Resp, "listed": o.Listed, "pub": o.Pub, "closed": o.Closed}, "note": o.Note})
 			os.RemoveAll(dir)
 		case "ra":
-			e := newAuthEnv(dir, nil, M{"auth_enable": sc.Enable, "auth_method": sc.Method, "username": authUser,
-				"password": authPass[sc.Pass]}, false)
-			steps := e.raRun(&sc)
-			emit(M{"ev": "Ra", "sc": sc.Sc, "enable": sc.Enable, "method": sc.Method, "pass": sc.Pass, "steps": steps})
-			os.RemoveAll(dir)
+			// every scenario has its own server and its time goes into request round trips: a few side by side
+			raSem <- struct{}{}
+			wg.Add(1)
+			go func(sc authScenario) {
+				defer wg.Done()
+				defer func() { <-raSem }()
+				e := newAuthEnv(dir, nil, M{"auth_enable": sc.Enable, "auth_method": sc.Method, "username": authUser,
+					"password": authPass[sc.Pass]}, false)
+				steps := e.raRun(&sc)
+				emit(M{"ev": "Ra", "sc": sc.Sc, "enable": sc.Enable, "method": sc.Method, "pass": sc.Pass, "steps": steps})
+				os.RemoveAll(dir)
+			}(sc)
 		case "kick":
+			if sc.Pd == "hls_sub" {
+				// an HLS session has no connection: it is "connected" while its session id is served.
+				// lal sweeps disposed sessions once a second: run beside the other cases.
+				wg.Add(1)
+				go func(sc authScenario) {
+					defer wg.Done()
+					e := newAuthEnv(dir, nil, nil, false, M{"sub_session_hash_key": "k1", "sub_session_timeout_ms": 20000})
+					e.writePlaylist(authStream)
+					open := func(remote string) (sid string) {
+						_, _, hdr, _ := e.hlsDo("/hls/"+authStream+".m3u8", remote)
+						if k := strings.Index(hdr.Get("Location"), "session_id="); k >= 0 {
+							sid = hdr.Get("Location")[k+len("session_id="):]
+						}
+						return
+					}
+					served := func(sid, remote string) bool {
+						code, b, _ := e.hlsGet("/hls/"+authStream+".m3u8?session_id="+sid, remote)
+						w, _ := hlsProject(code, b)
+						return w == "playlist"
+					}
+					idOf := func(remote string) string {
+						if sg := e.sm.StatGroup(authStream); sg != nil {
+							for _, x := range sg.StatSubs {
+								if x.RemoteAddr == remote && x.Protocol == "HLS" {
+									return x.SessionId
+								}
+							}
+						}
+						return ""
+					}
+					peerSid, peerClosed := "", false
+					if sc.Peers > 0 {
+						peerSid = open("10.0.0.8:1")
+					}
+					sid := open("10.0.0.7:1")
+					id := idOf("10.0.0.7:1")
+					had := sid != "" && id != "" && served(sid, "10.0.0.7:1")
+					if sc.Which == "unknown" {
+						id = id + "999"
+					}
+					ret := e.sm.CtrlKickSession(base.ApiCtrlKickSessionReq{StreamName: authStream, SessionId: id})
+					wait := 3000
+					if sc.Which == "unknown" {
+						wait = 30
+					}
+					closed := false
+					for dl := time.Now().Add(time.Duration(wait) * time.Millisecond); ; time.Sleep(20 * time.Millisecond) {
+						if closed = !served(sid, "10.0.0.7:1"); closed || time.Now().After(dl) {
+							break
+						}
+					}
+					if peerSid != "" {
+						peerClosed = !served(peerSid, "10.0.0.8:1")
+					}
+					emit(M{"ev": "Kick", "sc": sc.Sc, "pd": sc.Pd, "which": sc.Which, "peers": sc.Peers, "had": had,
+						"ok": ret.ErrorCode == base.ErrorCodeSucc, "closed": closed, "peerClosed": peerClosed})
+					os.RemoveAll(dir)
+				}(sc)
+				break
+			}
 			e := newAuthEnv(dir, nil, nil, false)
+			var peer saObs
+			if sc.Peers > 0 {
+				peer = e.saRequest(sc.Pd, authStream, "", "p")
+			}
 			o := e.saRequest(sc.Pd, authStream, "", "c")
 			id := o.id
 			if sc.Which == "unknown" {
@@ -905,9 +1137,14 @@ func authDriver(env *Env) error {
 				wait = 30
 			}
 			closed := pollUntil(wait, o.isClosed)
-			emit(M{"ev": "Kick", "sc": sc.Sc, "pd": sc.Pd, "which": sc.Which, "had": o.id != "" && !o.Closed,
-				"ok": ret.ErrorCode == base.ErrorCodeSucc, "closed": closed})
+			peerClosed := sc.Peers > 0 && peer.isClosed()
+			emit(M{"ev": "Kick", "sc": sc.Sc, "pd": sc.Pd, "which": sc.Which, "peers": sc.Peers,
+				"had": o.id != "" && !o.Closed && (sc.Peers == 0 || (peer.id != "" && peer.id != o.id)),
+				"ok":  ret.ErrorCode == base.ErrorCodeSucc, "closed": closed, "peerClosed": peerClosed})
 			o.closeFn()
+			if sc.Peers > 0 {
+				peer.closeFn()
+			}
 			os.RemoveAll(dir)
 		case "bl":
 			wg.Add(1)
@@ -915,24 +1152,76 @@ func authDriver(env *Env) error {
 				defer wg.Done()
 				e := newAuthEnv(dir, nil, nil, false)
 				e.writePlaylist(authStream)
-				ipA, ipB := "10.1.0.1", "10.1.0.2"
+				// a: listed for Dur seconds, c: listed beyond the last probe, b: never listed
+				ips := map[string]string{"a": "10.1.0.1", "b": "10.1.0.2", "c": "10.1.0.3"}
+				if sc.Fam == "v6" {
+					ips = map[string]string{"a": "fd00::1", "b": "fd00::2", "c": "fd00::3"}
+				}
 				t0 := time.Now()
-				e.sm.CtrlAddIpBlacklist(base.ApiCtrlAddIpBlacklistReq{Ip: ipA, DurationSec: sc.Dur})
+				e.sm.CtrlAddIpBlacklist(base.ApiCtrlAddIpBlacklistReq{Ip: ips["a"], DurationSec: sc.Dur})
+				e.sm.CtrlAddIpBlacklist(base.ApiCtrlAddIpBlacklistReq{Ip: ips["c"], DurationSec: sc.Dur + 5})
+				paths := []string{"/hls/" + authStream + ".m3u8", "/hls/" + authStream + "/playlist.m3u8", "/hls/" + authStream + "/record.m3u8",
+					"/hls/" + authStream + "-1-0.ts", "/hls/" + authStream + "/" + authStream + "-1-0.ts"}
 				probes := []M{}
 				for _, k := range sc.Probes {
 					time.Sleep(time.Until(t0.Add(time.Duration(k)*time.Second + 500*time.Millisecond)))
-					for _, ip := range []string{"a", "b"} {
-						addr := ipA
-						if ip == "b" {
-							addr = ipB
+					for _, ip := range []string{"a", "b", "c"} {
+						got := []bool{}
+						for _, p := range paths {
+							code, b, _ := e.hlsGet(p, net.JoinHostPort(ips[ip], "5000"))
+							w, _ := hlsProject(code, b)
+							got = append(got, w != "none")
 						}
-						_, b1, _ := e.hlsGet("/hls/"+authStream+".m3u8", addr+":5000")
-						_, b2, _ := e.hlsGet("/hls/"+authStream+"-1-0.ts", addr+":5000")
-						probes = append(probes, M{"k": k, "ip": ip, "m3u8": bytes.Contains(b1, []byte("#EXTM3U")), "ts": len(b2) == 188})
+						probes = append(probes, M{"k": k, "ip": ip, "got": got})
 					}
 				}
-				emit(M{"ev": "Bl", "sc": sc.Sc, "dur": sc.Dur, "probes": probes})
+				emit(M{"ev": "Bl", "sc": sc.Sc, "dur": sc.Dur, "fam": sc.Fam, "probes": probes})
 			}(sc)
+		case "hp":
+			// read-only: one server per flag configuration serves every spelling
+			key := sc.Cfg
+			if sc.Listed {
+				key += "-listed"
+			}
+			e := hpEnv[key]
+			if e == nil {
+				cfg := sc.Cfg
+				e = newAuthEnv(filepath.Join(tmp, "hp-"+key), saFlags(func(f string) bool {
+					return cfg == "all" || (cfg == "hls") == (f == "hls_m3u8_enable") && cfg != "none"
+				}), nil, false)
+				e.writePlaylist(authStream)
+				e.writePlaylist(authUpper)
+				e.sm.CtrlAddIpBlacklist(base.ApiCtrlAddIpBlacklistReq{Ip: "10.2.0.9", DurationSec: 360000})
+				hpEnv[key] = e
+			}
+			remote := "10.0.0.7:1234"
+			if sc.Listed {
+				remote = "10.2.0.9:1234"
+			}
+			target := withQ(hpTarget(sc.Hp), hpQuery(sc.Form))
+			code, body, note := e.hlsGet(target, remote)
+			what, stream := hlsProject(code, body)
+			emit(M{"ev": "Hp", "sc": sc.Sc, "cfg": sc.Cfg, "hp": sc.Hp, "form": sc.Form, "listed": sc.Listed,
+				"obs": M{"what": what, "stream": stream}, "code": code, "target": target, "note": note})
+			os.RemoveAll(dir)
+		case "sv":
+			pd := sc.Pd
+			e := newAuthEnv(dir, saFlags(func(f string) bool {
+				return sc.Enable && (pd == "flv_sub" && f == "sub_httpflv_enable" || pd == "ts_sub" && f == "sub_httpts_enable")
+			}), nil, false)
+			p := sc.Hp
+			kind := "flv"
+			if pd == "ts_sub" {
+				kind = "ts"
+			}
+			p.Ext = spellFixed[kind][sc.Hp.Ext]
+			target := hpTarget(p)
+			// the publisher exists for cam1 only, whatever the request names
+			o := e.saRequestAt(pd, authStream, hpQuery(sc.Form), "c", target)
+			o.closeFn()
+			emit(M{"ev": "Sv", "sc": sc.Sc, "pd": pd, "on": sc.Enable, "hp": sc.Hp, "form": sc.Form,
+				"obs": M{"resp": o.Resp, "listed": o.Listed, "pub": o.Pub, "closed": o.Closed}, "target": target, "note": o.Note})
+			os.RemoveAll(dir)
 		case "rd":
 			// read-only: one server and one planted tree serve every request
 			if rdEnv == nil {
